@@ -45,4 +45,9 @@ func vCoreTables() []vTable {
 // tables that use template forms only CurlyRouter documents
 func vCurlyOnly(tbl int) bool { return tbl == 2 || tbl == 3 || tbl == 6 || tbl == 18 || tbl == 22 }
 
-func vTableFor(tbl int) vTable { return vCoreTables()[tbl] }
+func vTableFor(tbl int) vTable {
+	if tbl >= 1000 {
+		return vGenTable(tbl - 1000)
+	}
+	return vCoreTables()[tbl]
+}
